@@ -103,7 +103,23 @@ def start_passive_facts(fn):
     handlers = []
     for h in tr.handlers:
         typ = src(h.type) if h.type is not None else "<bare>"
-        acts = [x for x in (norm_handler_stmt(s) for s in h.body) if x is not None]
+        acts = []
+        body = list(h.body)
+        while body:
+            st = body.pop(0)
+            # `if err.errno == errno.EADDRINUSE: continue` + `raise`  ==  `if err.errno != errno.EADDRINUSE: raise`
+            # (the try is the only statement of the loop body, so `continue` and falling off the handler coincide)
+            if (
+                isinstance(st, ast.If) and not st.orelse and len(st.body) == 1 and isinstance(st.body[0], ast.Continue)
+                and src(st.test) == "err.errno == errno.EADDRINUSE"
+                and body and isinstance(body[0], ast.Raise) and body[0].exc is None and len(body) == 1
+            ):
+                body.pop(0)
+                acts.append("unless:EADDRINUSE=>raise")
+                continue
+            x = norm_handler_stmt(st)
+            if x is not None:
+                acts.append(x)
         handlers.append((typ, acts))
     return stmts, handlers, bool(tr.finalbody), bool(tr.orelse)
 
